@@ -19,7 +19,8 @@ JOBS = {'quick': 2, 'thorough': 16}
 REQUIRED_MONITORS = ('roundtrip_library_reader', 'roundtrip_reference_reader', 'line_length_writeline')
 REQUIRED_CLASSES = ('format:set', 'format:default', 'count:declared', 'count:backfilled', 'vel:yes', 'vel:no',
                     'box:triclinic', 'box:vector', 'numbers:edge', 'number:99999', 'number:>=100000',
-                    'coords:rounding-boundary', 'coords:widest', 'dec:1', 'dec:6')
+                    'coords:rounding-boundary', 'coords:widest', 'dec:1', 'dec:6', 'calls:mixed-writeline-writelines',
+                    'calls:one-record-writelines-first')
 RULE = ('file specifications: 1..300 records x names (5 classes) x number class x coordinate class x decimals 1..6 '
         '(format set through position_format or default) x velocities x box class x count declared/back-filled x title. '
         'Non-trivial: at least 2 records. distinct = distinct (decimals, format mode, velocities, box class, count mode, '
@@ -165,6 +166,10 @@ def run_case(ctx, case):
     ctx.hit('numbers:' + spec['number_class'])
     ctx.hit('coords:' + spec['coord_class'])
     ctx.hit(f'dec:{spec["dec"]}')
+    if spec.get('schedule'):
+        ctx.hit('calls:mixed-writeline-writelines')
+        if spec['schedule'][0] == ('lines', 1):
+            ctx.hit('calls:one-record-writelines-first')
     nums = [r['resid'] for r in spec['records']] + [r['atomid'] for r in spec['records']]
     if 99999 in nums:
         ctx.hit('number:99999')
